@@ -11,18 +11,20 @@ LEVEL = "model_checking"
 RULE = ("All algorithm variants x 11 partition variants x boxes {[0,1], [0,1]^2, [-2,6]x[0.25,0.5]}: every reward sequence in {0,1,-1}^T "
         "(RNG answers: every split dimension / dyadic split fraction / sampled cell with <= 1 deviation, answered as fractions of the "
         "interval so that the random partitions are driven equivariantly) run in lock-step with shadow instances on affine images of "
-        "the box: exact maps x+1, x-8, x+0.25, 2x, x/2, 4x, 2x+2, x+2^20 (bit-exact comparison where the partition arithmetic is dyadic, 1e-9 "
+        "the box: exact maps x+1, x-8, x+0.25, 2x, x/2, 4x, 2x+2, x+2^20 and, in dimension >= 2, the per-axis translation x+(16,-4,2) (bit-exact comparison where the partition arithmetic is dyadic, 1e-9 "
         "otherwise) and the inexact maps 3x, x+0.1 (1e-9; not for Zooming and default-delta DOO whose decisions compare coordinates).  "
         "DOO with its default diameter function is shadowed by translations only.  The quick tier takes a VERIF_SEED-rotated third of "
-        "the configurations.  distinct_nontrivial = executions with >= 2 distinct points.")
-ASSUMPTIONS = ["split fractions restricted to the dyadic menu {1/2, 0, 1/4, 1-2^-20} so that exact maps stay exact",
+        "the configurations for the E-full part and every configuration for the long runs.  distinct_nontrivial = executions with >= 2 distinct points.")
+ASSUMPTIONS = ["the large translation x+2^20 is judged only while the reference run's points have at most 28 fractional bits, the small translations while they have at most 44 (beyond that the image is not exactly representable)", "split fractions restricted to the dyadic menu {1/4 (default), 0, 1/2, 1-2^-20} so that exact maps stay exact",
                "the shadow receives the reference run's RNG answers in order", "tolerance 1e-9 (relative, floor 1) for non-dyadic arithmetic"]
 VACUITY = [("shadow_pulls", "no shadow pull compared"), ("recommendations_compared", "no recommendation compared")]
-DYADIC = (0.5, 0.0, 0.25, 1.0 - 2.0 ** -20)
+DYADIC = (0.25, 0.0, 0.5, 1.0 - 2.0 ** -20)
 
 EXACT_MAPS = {"x+1": (1.0, 1.0), "x-8": (1.0, -8.0), "x+0.25": (1.0, 0.25), "2x": (2.0, 0.0), "x/2": (0.5, 0.0), "4x": (4.0, 0.0),
               "2x+2": (2.0, 2.0), "x+2^20": (1.0, 1048576.0)}
 INEXACT_MAPS = {"3x": (3.0, 0.0), "x+0.1": (1.0, 0.1)}
+# a translation that moves every axis by a different (dyadic, hence exact) amount
+AXIS_SHIFT = (16.0, -4.0, 2.0)
 
 
 def _cfgs():
@@ -42,20 +44,21 @@ def _cfgs():
 def tasks(tier, seed):
     ts = []
     for i, (label, cfg) in enumerate(_cfgs()):
-        if tier == "quick" and (i + seed) % 3:
-            continue
         wrapper = cfg["algo"] in configs.WRAPPERS
         vroom = cfg["algo"] == "VROOM"
         rng = vroom or "Random" in cfg["part"] or (len(cfg["domain"]) > 1 and cfg["part"] != "DimensionBinary")
+        lab = "%s/%s%s/%dd%s" % (label, cfg["part"], cfg["K"] or "", len(cfg["domain"]), "m" if cfg["domain"][0][0] < 0 else "")
+        maps = (i + seed) % 7 if tier == "quick" else None
+        if not vroom:
+            # a long run on continuous rewards (a function of the normalised coordinate, hence identical for the images);
+            # with k=0 this is one execution, so the quick tier runs it for EVERY configuration
+            ts.append({"kind": "algo", "label": "dev/" + lab, "cfg": cfg, "mode": "dev", "T": 40 if tier == "quick" else 100,
+                       "R": list(configs.R2), "base": "peak", "k": 0 if tier == "quick" else 1, "cost": 1, "maps": maps, "max_exec": 3000})
+        if tier == "quick" and (i + seed) % 3:
+            continue
         T = (3 if (vroom or (wrapper and rng)) else (4 if (wrapper or rng) else 5)) if tier == "quick" else (4 if vroom else (6 if wrapper else 7))
-        ts.append({"kind": "algo", "label": "%s/%s%s/%dd%s" % (label, cfg["part"], cfg["K"] or "", len(cfg["domain"]), "m" if cfg["domain"][0][0] < 0 else ""),
-                   "cfg": cfg, "mode": "full", "T": T, "R": list(configs.R3), "rng_k": 1 if rng else None, "cost": 2 + 3 * wrapper + 2 * rng, "maps": (i + seed) % 7 if tier == "quick" else None,
-                   "max_exec": 6000 if tier == "quick" else 100000})
-        if not vroom and (tier == "thorough" or (i + seed) % 2 == 0):
-            # a long run on continuous rewards (function of the normalised coordinate, hence identical for the images)
-            ts.append({"kind": "algo", "label": "dev/" + ts[-1]["label"], "cfg": cfg, "mode": "dev", "T": 40 if tier == "quick" else 100,
-                       "R": list(configs.R2), "base": "peak", "k": 0 if tier == "quick" else 1, "cost": 1,
-                       "maps": ts[-1]["maps"], "max_exec": 3000})
+        ts.append({"kind": "algo", "label": lab, "cfg": cfg, "mode": "full", "T": T, "R": list(configs.R3), "rng_k": 1 if rng else None,
+                   "cost": 2 + 3 * wrapper + 2 * rng, "maps": maps, "max_exec": 6000 if tier == "quick" else 100000})
     return ts
 
 
@@ -83,7 +86,14 @@ def _mk_for(task):
                 continue
             c2 = copy.deepcopy(cfg)
             c2["domain"] = [[a * lo + b, a * hi + b] for lo, hi in cfg["domain"]]
-            out.append(Shadow(name, c2, fmap=(lambda x, a=a, b=b: [a * float(v) + b for v in x]), exact=dyadic_part, tol=1e-9))
+            out.append(Shadow(name, c2, fmap=(lambda x, a=a, b=b: [a * float(v) + b for v in x]), exact=dyadic_part, tol=1e-9,
+                              max_frac_bits=(28 if abs(b) > 1000 else (44 if b != 0 else None))))
+        if len(cfg["domain"]) > 1:
+            c2 = copy.deepcopy(cfg)
+            c2["domain"] = [[lo + AXIS_SHIFT[i], hi + AXIS_SHIFT[i]] for i, (lo, hi) in enumerate(cfg["domain"])]
+            if not (coord_sensitive and not dyadic_part):
+                out.append(Shadow("x+(16,-4,2)", c2, fmap=(lambda x: [float(v) + AXIS_SHIFT[i] for i, v in enumerate(x)]),
+                                  exact=dyadic_part, tol=1e-9, max_frac_bits=44))
         if not coord_sensitive:
             for name, (a, b) in INEXACT_MAPS.items():
                 if name not in keep_in:
